@@ -8,7 +8,8 @@ ID = "C03"
 THEOREMS = ["C03_conservation", "C03_offsets_step", "C03_star_eq", "C03_at_eq_no_flush", "C03_run_conservation",
             "C03_run_offsets", "C03_writer_protocol", "C03_writer_protocol_offsets", "C03_writer_protocol_initial",
             "C03_ram_org", "C03_hirom_star_eq", "C03_offsets_step_sub",
-            "C03_user_bus_lookup", "C03_user_offset_physical", "C03_user_offsets_oracle"]
+            "C03_user_bus_lookup", "C03_user_offset_physical", "C03_user_offsets_oracle",
+            "C03_ram_runs_oracle", "C03_ram_runs_oracle_codepos", "C03_user_ram_runs_oracle"]
 RULE = ("generated programs with frequent *= / @= moves (ROM and RAM targets), bank crossings, LoROM/HiROM/low2 and "
         "user .map configurations; the emission trace (run address, resolver.pc, bytes per node) is recorded by wrapping "
         "emit; non-trivial: assembles and emits bytes; distinct by source text")
